@@ -73,7 +73,7 @@ def main():
     ap.add_argument("--limit", type=int, default=0)
     ap.add_argument("--benign", action="store_true", help="behaviour-preserving rewrites (mutgen -benign): anything a check reports is a false alarm")
     ap.add_argument("--allprops", action="store_true", help="run every property on every mutant (not only those anchored in the mutated file)")
-    ap.add_argument("--from", dest="prev", default="", help="re-run only the survivors of an earlier sweep")
+    ap.add_argument("--from", dest="prev", default="", help="re-run only the survivors of an earlier sweep (with --benign: only the rewrites that were reported)")
     ap.add_argument("--kinds", default="", help="comma-separated substrings: keep only mutants whose kind contains one of them")
     a = ap.parse_args()
     fp = file_props()
@@ -87,7 +87,7 @@ def main():
     subprocess.run([os.path.join(VERIF, "run.sh"), "build"], check=True)
     muts = []
     if a.prev:
-        muts = [{k: m[k] for k in ("file", "func", "line", "kind", "off", "end", "old", "new")} for m in json.load(open(a.prev)) if m["status"] == "survived"]
+        muts = [{k: m[k] for k in ("file", "func", "line", "kind", "off", "end", "old", "new")} for m in json.load(open(a.prev)) if m["status"] == ("killed" if a.benign else "survived")]
         files = []
     for f in files:
         r = subprocess.run([MUTGEN] + (["-benign"] if a.benign else []) + [f], cwd=REPO, capture_output=True, text=True)
